@@ -221,7 +221,10 @@ fn long_patterns(text: &[u32], absent: u32) -> Vec<Vec<u32>> {
         }
     }
     let starts = [0usize, 1, 2, 61, 62, 63, 64, 65, 66, 126, 127, 128, 129];
-    for m in [5usize, 8, 62, 63, 64, 65, 66, n.saturating_sub(1), n] {
+    // on very long texts a pattern of (almost) the whole text costs seconds per call on the
+    // subject: only the text itself is kept there
+    let whole: Vec<usize> = if n > 2048 { vec![n] } else { vec![n.saturating_sub(1), n] };
+    for m in [5usize, 8, 62, 63, 64, 65, 66].into_iter().chain(whole) {
         if m == 0 || m > n {
             continue;
         }
@@ -234,19 +237,23 @@ fn long_patterns(text: &[u32], absent: u32) -> Vec<Vec<u32>> {
         ss.dedup();
         for s in ss {
             let p = text[s..s + m].to_vec();
-            // the same with its first / last symbol replaced by the absent one
-            let mut q = p.clone();
-            q[0] = absent;
-            let mut r = p.clone();
-            r[m - 1] = absent;
+            if m <= 2048 {
+                // the same with its first / last symbol replaced by the absent one
+                let mut q = p.clone();
+                q[0] = absent;
+                let mut r = p.clone();
+                r[m - 1] = absent;
+                out.push(q);
+                out.push(r);
+            }
             out.push(p);
-            out.push(q);
-            out.push(r);
         }
     }
     let mut longer = text.to_vec();
     longer.push(text[0]);
-    out.push(longer);
+    if n <= 2048 {
+        out.push(longer);
+    }
     out.sort();
     out.dedup();
     out
@@ -483,6 +490,11 @@ fn main() {
     let n_longs = longs.len();
     if want("long") {
         for (name, text, absent) in longs {
+            if let Some(f) = args.get("long-filter") {
+                if !name.contains(f) {
+                    continue;
+                }
+            }
             items.push(Item::Long { name, text, absent });
         }
     }
@@ -500,7 +512,7 @@ fn main() {
         &items,
         args.threads(),
         job,
-        args.u64("stall-secs", 300),
+        args.u64("stall-secs", 900),
         describe,
         |item, acc| match item {
             Item::Invalid => {
